@@ -957,14 +957,19 @@ write_mtree_entry(struct archive_write *a, struct mtree_entry *me)
 			 */
 			if (!mtree->dironly)
 				archive_strappend_char(&mtree->buf, '\n');
-			if (me->parentdir.s)
-				archive_string_sprintf(&mtree->buf,
-				    "# %s/%s\n",
-				    me->parentdir.s, me->basename.s);
-			else
-				archive_string_sprintf(&mtree->buf,
-				    "# %s\n",
-				    me->basename.s);
+			/*
+			 * The names are quoted as in the entry itself: a
+			 * name ending in a backslash would continue the
+			 * comment over the next line, one holding a newline
+			 * would end it early.
+			 */
+			archive_strcat(&mtree->buf, "# ");
+			if (me->parentdir.s) {
+				mtree_quote(&mtree->buf, me->parentdir.s);
+				archive_strappend_char(&mtree->buf, '/');
+			}
+			mtree_quote(&mtree->buf, me->basename.s);
+			archive_strappend_char(&mtree->buf, '\n');
 		}
 		if (mtree->output_global_set)
 			write_global(mtree);
@@ -1103,8 +1108,11 @@ write_dot_dot_entry(struct archive_write *a, struct mtree_entry *n)
 			for (i = 0; i < pd; i++)
 				archive_strappend_char(&mtree->buf, ' ');
 		}
-		archive_string_sprintf(&mtree->buf, "# %s/%s\n",
-			n->parentdir.s, n->basename.s);
+		archive_strcat(&mtree->buf, "# ");
+		mtree_quote(&mtree->buf, n->parentdir.s);
+		archive_strappend_char(&mtree->buf, '/');
+		mtree_quote(&mtree->buf, n->basename.s);
+		archive_strappend_char(&mtree->buf, '\n');
 	}
 
 	if (mtree->indent) {
